@@ -14,6 +14,10 @@ Oracle (exact integer ticks of 1/16 s; intervals are k/8 s <= 64 s):
   * stop() or a failure (raise / failed Deferred) fires start()'s Deferred exactly once -- with the
     LoopingCall, or with a Failure wrapping the very exception instance -- by the end of the harness
     operation that completes it, never before; no call happens afterwards.
+Restart: start() is called again after the loop ended (at top level, from a callback of the Deferred
+the previous start() returned, and -- with stop() -- from inside the looped function, now=False): every
+clause applies afresh to the new run (its own start time, interval, now flag, count sum), and the
+Deferred of every earlier start() must have fired exactly once, with its own result, for good.
 False-alarm guards: interval 0 is not generated ("positive interval"); reset() is only issued while
 a call is scheduled (it is a documented no-op otherwise) and restarts the boundary grid at the reset
 time, the count-sum rule is then not asserted (statement does not define it); stop() is only issued
@@ -35,7 +39,8 @@ ASSUMPTIONS = ["trusted base: task.Clock (property C09) delivers the timed calls
 SHARDS = {"quick": 4, "thorough": 16}
 FLOORS = {"calls": 5000, "cadence_checks": 3000, "count_sum_checks": 1000, "counts_gt_1": 200, "deferred_awaited": 500,
           "final_by_stop": 300, "final_by_failure": 300, "stop_inside_call": 50, "stop_while_outstanding": 50,
-          "resets": 100, "post_final_advances": 500, "exact_boundary_advances": 200}
+          "resets": 100, "post_final_advances": 500, "exact_boundary_advances": 200,
+          "restarts_at_top_level": 200, "restarts_from_deferred_callback": 200, "restarts_inside_call": 10}
 READY = True
 U = 16
 MAX_CALLS = 300  # per case; legitimate cases make at most one call per advance (< 80)
@@ -69,6 +74,11 @@ def gen_case(rng):
             b = ["ret"]
         if rng.random() < 0.03:
             b.append("stop")
+            if rng.random() < 0.35 and (b[0] == "ret" or (b[0] == "dnow" and b[1])):
+                # stop() and start() again from inside the looped function.  Only for calls that return at once
+                # without failing (a call still in flight next to a new run overlaps by the caller's own doing, and
+                # which run a later failure of it would end is unspecified); now=False (now=True would re-enter it)
+                b.append(["restart", rng.choice([1, 2, 3, 8, 16, 40])])
         beh.append(b)
     case["behaviours"] = beh
     steps = []
@@ -91,11 +101,16 @@ def gen_case(rng):
             steps.append(["adv", a])
         elif r < 0.90:
             steps.append(["fire", rng.random() >= fail_p * 2])
-        elif r < 0.975:
+        elif r < 0.965:
             steps.append(["reset"])
-        else:
+        elif r < 0.98:
             steps.append(["stop"])
+        else:
+            steps.append(["restart", rng.choice([1, 2, 3, 5, 8, 16, 40, 64]), rng.random() < 0.5])  # start() again after the loop ended
     case["steps"] = steps
+    # start() again from a callback of the Deferred the previous start() returned
+    case["restart_in_callback"] = [[rng.choice([1, 2, 3, 5, 8, 16, 40]), rng.random() < 0.5] for _ in range(rng.choice([1, 1, 2]))] \
+        if rng.random() < 0.25 else []
     return case
 
 
@@ -120,6 +135,12 @@ class Monitor:
         self.in_start = self.in_adv = False
         self.prev_now = 0
         self.reset_used = False
+        self.cur_now = case["now"]
+        self.run_index = 0
+        self.run_first_idx = 0
+        self.old_runs = []  # [(fired list, final)] of earlier start()s: each must have fired exactly once, for good
+        self.cb_restarts = list(case.get("restart_in_callback", ()))
+        self.restarted_inside = False
         self.lc = task.LoopingCall.withCount(self.f) if case["withCount"] else task.LoopingCall(self.f)
         self.lc.clock = self.clock
         self.n_timers = 0
@@ -141,6 +162,12 @@ class Monitor:
         if self.bad:
             return
         self.bad = True
+        if self.restarted_inside:
+            # causal signature: stop()+start() were called from inside the running function
+            what, key = "after stop()+start() from inside the looped function: [%s] %s" % (key, what), "restart-inside-call-breaks-loop"
+        elif self.run_index > 0 and self.case["withCount"] and key in ("first-call-time", "count-sum-mismatch", "count-not-positive"):
+            # causal signature: a withCount loop was started again and the count of the new run is off
+            what, key = "withCount loop started again: [%s] %s" % (key, what), "withcount-restart-stale-last-time"
         w = {"case": self.case, "events": self.events[-50:], "start_ticks": getattr(self, "start", None), "interval_ticks": self.iv}
         w.update(extra)
         self.ctx.violation(key, what, w)
@@ -174,6 +201,14 @@ class Monitor:
                 self.lc.stop()
             except BaseException as e:  # noqa: BLE001
                 self.fail("unexpected-exception", "stop() inside the function raised %s: %s" % (type(e).__name__, e))
+            rs = [x for x in beh[1:] if isinstance(x, list) and x[0] == "restart"]
+            if rs and self.run_index < 4 and not self.bad:
+                self.stat("restarts_inside_call")
+                self.restarted_inside = True
+                try:
+                    self.do_restart(rs[0][1], False, "inside-call")
+                except BaseException as e:  # noqa: BLE001
+                    self.fail("unexpected-exception", "start() inside the function raised %s: %s" % (type(e).__name__, e))
         kind = beh[0]
         if kind == "raise" or (kind == "dnow" and not beh[1]):
             exc = Boom(idx)
@@ -186,6 +221,7 @@ class Monitor:
         if kind in ("dman", "dclk"):
             d = defer.Deferred()
             self.inflight = d
+            self.expected_B = None
             self.stat("deferred_awaited")
             if kind == "dclk":
                 self.clock.callLater(beh[2] / U, self.fire, beh[1], "clk")
@@ -201,7 +237,7 @@ class Monitor:
         if not self.running:
             return self.fail("call-after-stop", "function called after stop()/failure", call=idx, final=repr(self.final))
         if self.in_start:
-            if not self.case["now"] or idx != 0:
+            if not self.cur_now or idx != self.run_first_idx:
                 return self.fail("first-call-time", "function called inside start() although now=False", call=idx)
         else:
             B = self.expected_B
@@ -224,10 +260,10 @@ class Monitor:
             if count > 1:
                 self.stat("counts_gt_1")
             if not self.reset_used:
-                want = (self.now - self.start) // self.iv + (1 if self.case["now"] else 0)
+                want = (self.now - self.start) // self.iv + (1 if self.cur_now else 0)
                 if self.sumcount != want:
                     return self.fail("count-sum-mismatch", "sum of counts %d != boundaries elapsed %d at call %d"
-                                     % (self.sumcount, want, idx), call=idx, counts=[c for _, c in self.calls])
+                                     % (self.sumcount, want, idx), call=idx, counts=[c for _, c in self.calls[self.run_first_idx:]])
                 self.stat("count_sum_checks")
         elif count is not None:
             return self.fail("count-not-positive", "plain LoopingCall passed an argument %r" % (count,), call=idx)
@@ -267,6 +303,13 @@ class Monitor:
     def check_final(self, after):
         if self.bad:
             return
+        from twisted.python.failure import Failure as _F
+
+        for n, (fired, final) in enumerate(self.old_runs):
+            ok = len(fired) == 1 and (fired[0] is self.lc if final[0] == "lc" else isinstance(fired[0], _F) and fired[0].value is final[1])
+            if not ok:
+                return self.fail("start-deferred-not-fired-once", "the Deferred of start() number %d (loop ended: %r) has fired %d times "
+                                 "after %s: %r" % (n, final, len(fired), after, fired), final=repr(final))
         if self.final is None or self.inflight is not None:
             if self.fired:
                 self.fail("start-deferred-fired-early", "start()'s Deferred fired although the loop is neither stopped nor failed",
@@ -303,18 +346,43 @@ class Monitor:
             self.stat("post_final_advances")
 
     def do_start(self):
-        self.in_start = True
+        self.begin_run(self.iv, self.case["now"])
+
+    def begin_run(self, iv, now):
+        self.iv, self.cur_now = iv, now
+        was_in_start, self.in_start = self.in_start, True
         self.running = True
         self.start = self.now
-        if not self.case["now"]:
-            self.expected_B = self.start + self.iv
+        first = self.run_first_idx = len(self.calls)
+        self.expected_B = None if now else self.start + self.iv
+        fired = self.fired
         try:
-            d = self.lc.start(self.iv / U, now=self.case["now"])
+            d = self.lc.start(self.iv / U, now=now)
         finally:
-            self.in_start = False
-        d.addBoth(self.fired.append)
-        if self.case["now"] and not self.calls and not self.bad:
+            self.in_start = was_in_start
+        if now and len(self.calls) == first and not self.bad:
             self.fail("first-call-time", "now=True but the function was not called inside start()")
+        d.addBoth(self.on_start_deferred, fired)  # (may fire at once and start the loop again from the callback)
+
+    def on_start_deferred(self, result, fired):
+        fired.append(result)
+        if fired is self.fired and self.cb_restarts and self.run_index < 4 and not self.bad and self.final is not None \
+                and self.inflight is None and not self.restarted_inside:
+            iv8, now = self.cb_restarts.pop(0)
+            self.stat("restarts_from_deferred_callback")
+            self.do_restart(iv8, now, "callback")
+
+    def do_restart(self, iv8, now, where):
+        """start() again: the previous run's Deferred stays under observation, a new run of the property begins."""
+        self.events.append(("restart", where, iv8, now, self.now))
+        self.old_runs.append((self.fired, self.final if self.final is not None else ("lc",)))
+        self.fired = []
+        self.final = None
+        self.run_index += 1
+        self.reset_used = False
+        self.sumcount = 0
+        self.stat("restarts")
+        self.begin_run(iv8 * 2, now)
 
     def run(self):
         c = self.case
@@ -332,8 +400,11 @@ class Monitor:
             self.guarded("advance", self.advance, 2 * self.iv + 1)
         if not self.bad and self.inflight is not None:
             self.guarded("fire", self.fire, True)
-        if not self.bad and self.running:
-            self.step(["stop"])
+        for _ in range(6):  # (a callback of start()'s Deferred may start the loop again)
+            if not self.bad and self.inflight is not None:
+                self.guarded("fire", self.fire, True)
+            if not self.bad and self.running:
+                self.step(["stop"])
         for a in (1, self.iv, 3 * self.iv + 1):
             if not self.bad:
                 self.guarded("advance", self.advance, a)
@@ -365,6 +436,11 @@ class Monitor:
             else:
                 self.stat("stop_while_outstanding")
             self.guarded("stop", self.lc.stop)
+        elif k == "restart":
+            if self.final is None or self.inflight is not None or self.run_index >= 4:
+                return
+            self.stat("restarts_at_top_level")
+            self.guarded("restart", self.do_restart, s[1], s[2], "top")
         elif k == "reset":
             if not self.running or self.inflight is not None or self.expected_B is None:
                 return
